@@ -533,15 +533,24 @@ class Folder:
                     self.assign(g.target, item)
                     if all(self.ev(c) for c in g.ifs):
                         rec(i + 1)
-            rec(0)
+            pending = None
+            try:
+                rec(0)
+            except Raised as r_:
+                if not isinstance(e, ast.GeneratorExp):
+                    self.env = saved
+                    raise
+                pending = r_             # a generator expression raises where its items run out, not where it is written
             self.env = saved
+            if isinstance(e, ast.GeneratorExp):
+                return _EagerGen(out, pending)          # one-shot, as in Python: a second pass over it finds nothing
             return set(out) if isinstance(e, ast.SetComp) else out
         if isinstance(e, ast.Call):
             return self.call(e)
         if isinstance(e, ast.Lambda):
             params = [a.arg for a in e.args.args]
             defaults = [self.ev(d) for d in e.args.defaults]
-            captured = dict(self.env)
+            captured = self.env          # the frame itself, not a copy: a free name of a lambda is looked up when the lambda runs (late binding)
 
             def _lam(*args):
                 vals = list(args) + defaults[len(defaults) - (len(params) - len(args)):] if len(args) < len(params) else list(args)
